@@ -680,6 +680,8 @@ func ownershipRules(c *Ctx, r *Report) {
 	checkW1(c, r)
 	checkPackagerStores(c, r)
 	checkGlobals(c, r)
+	checkSharedSlices(c, r)
+	checkOutputBuffers(c, r)
 	checkMergeAlias(c, r, "W4-merge-alias")
 	checkFixture(c, r, []string{"go", "globalwrite", "fswrite", "atomic-mix"})
 }
@@ -704,4 +706,347 @@ func checkC12(c *Ctx, r *Report) {
 		"registration of packagers happens before concurrent use (package init)",
 	}
 	ownershipRules(c, r)
+}
+
+// ---- shared slice backing arrays -------------------------------------------
+
+// sliceOrigins follows identity-preserving steps (field load, reslice, phi,
+// parameter passing, append result) back to where a slice's backing array
+// comes from: "field:<Root>.<path>[ resliced]", "fresh", "call:<callee>",
+// "param:<fn>" (entry point).
+func sliceOrigins(c *Ctx, pa *provAnalysis, v ssa.Value, resliced bool, seen map[ssa.Value]bool, out map[string]bool) {
+	if v == nil || seen[v] {
+		return
+	}
+	seen[v] = true
+	tag := func(s string) string {
+		if resliced {
+			return s + " resliced"
+		}
+		return s
+	}
+	switch x := v.(type) {
+	case *ssa.UnOp:
+		if x.Op != token.MUL {
+			return
+		}
+		switch a := x.X.(type) {
+		case *ssa.FieldAddr:
+			p, root := addrPath(a)
+			if root != nil {
+				if al, isAlloc := root.(*ssa.Alloc); isAlloc {
+					// a local struct: the field holds what this function stored
+					// into it; when nothing was stored here (filled by a
+					// callee, e.g. by mergo through reflection) the slice may
+					// be the configuration's own
+					stored := false
+					var visit func(v ssa.Value, prefix string)
+					visit = func(v ssa.Value, prefix string) {
+						for _, ref := range *v.Referrers() {
+							f2, ok := ref.(*ssa.FieldAddr)
+							if !ok {
+								continue
+							}
+							pp := fieldName(f2.X.Type(), f2.Field)
+							if prefix != "" {
+								pp = prefix + "." + pp
+							}
+							if pp == p {
+								for _, r2 := range *f2.Referrers() {
+									if st, ok := r2.(*ssa.Store); ok && st.Addr == ssa.Value(f2) {
+										stored = true
+										sliceOrigins(c, pa, st.Val, resliced, seen, out)
+									}
+								}
+							} else if strings.HasPrefix(p, pp+".") {
+								visit(f2, pp)
+							}
+						}
+					}
+					visit(al, "")
+					rn := rootTypeName(al.Type())
+					if rn == "Info" || rn == "Overridables" || rn == "Config" {
+						// (flow-insensitive: a load may precede the local store)
+						out[tag("field:"+rn+"."+p)] = true
+					} else if !stored {
+						out[tag("fresh")] = true
+					}
+					return
+				}
+				out[tag("field:"+rootTypeName(root.Type())+"."+p)] = true
+			}
+		case *ssa.Alloc:
+			for _, ref := range *a.Referrers() {
+				if st, ok := ref.(*ssa.Store); ok && st.Addr == ssa.Value(a) {
+					sliceOrigins(c, pa, st.Val, resliced, seen, out)
+				}
+			}
+		case *ssa.FreeVar:
+			out[tag("freevar")] = true
+		case *ssa.Global:
+			out[tag("global:"+globalName(a))] = true
+		}
+	case *ssa.Slice:
+		if al := allocOf(x.X); al != nil {
+			out[tag("fresh")] = true
+			return
+		}
+		sliceOrigins(c, pa, x.X, resliced || x.High != nil || x.Low != nil, seen, out)
+	case *ssa.Phi:
+		for _, e := range x.Edges {
+			sliceOrigins(c, pa, e, resliced, seen, out)
+		}
+	case *ssa.ChangeType:
+		sliceOrigins(c, pa, x.X, resliced, seen, out)
+	case *ssa.Const:
+		out["nil"] = true
+	case *ssa.MakeSlice, *ssa.Alloc:
+		out[tag("fresh")] = true
+	case *ssa.Parameter:
+		sites := pa.callSites(x.Parent())
+		idx := -1
+		for i, p := range x.Parent().Params {
+			if p == x {
+				idx = i
+			}
+		}
+		if len(sites) == 0 || idx < 0 {
+			out[tag("param:"+c.funcKey(x.Parent()))] = true
+			return
+		}
+		for _, cs := range sites {
+			if idx < len(cs.Common().Args) {
+				sliceOrigins(c, pa, cs.Common().Args[idx], resliced, seen, out)
+			}
+		}
+	case *ssa.Call:
+		if b, ok := x.Call.Value.(*ssa.Builtin); ok && b.Name() == "append" {
+			sliceOrigins(c, pa, x.Call.Args[0], resliced, seen, out)
+			return
+		}
+		if sc := x.Call.StaticCallee(); sc != nil && sc.Blocks != nil && c.isModuleFunc(sc) {
+			for _, b := range sc.Blocks {
+				if ret, ok := b.Instrs[len(b.Instrs)-1].(*ssa.Return); ok {
+					for _, res := range retResults(ret) {
+						if _, isSlice := res.Type().Underlying().(*types.Slice); isSlice {
+							sliceOrigins(c, pa, res, resliced, seen, out)
+						}
+					}
+				}
+			}
+			return
+		}
+		out[tag("call:"+calleeName(x))] = true
+	case *ssa.Extract:
+		sliceOrigins(c, pa, x.Tuple, resliced, seen, out)
+	}
+}
+
+// checkSharedSlices: element stores into, and in-place appends onto, slices
+// whose backing array belongs to the configuration.
+func checkSharedSlices(c *Ctx, r *Report) {
+	pa := newProv(c)
+	var roots []*ssa.Function
+	for _, p := range c.Packagers {
+		roots = append(roots, p.Package, p.FileName)
+	}
+	for _, n := range []string{"Validate", "PrepareForPackager"} {
+		if f := c.Func("", n); f != nil {
+			roots = append(roots, f)
+		}
+	}
+	for _, m := range []string{"Get", "Validate"} {
+		if f := c.Method("", "Config", m); f != nil {
+			roots = append(roots, f)
+		}
+	}
+	reach := c.Reach(roots...)
+	n := 0
+	for _, fn := range sortedFuncs(c, reach) {
+		perFn := 0
+		forEachInstr(fn, func(in ssa.Instruction) {
+			switch x := in.(type) {
+			case *ssa.Store:
+				ia, ok := x.Addr.(*ssa.IndexAddr)
+				if !ok {
+					// field of an element: &s[i].f
+					if fa, ok2 := x.Addr.(*ssa.FieldAddr); ok2 {
+						if ia2, ok3 := fa.X.(*ssa.IndexAddr); ok3 {
+							ia = ia2
+						}
+					}
+					if ia == nil {
+						return
+					}
+				}
+				if _, isSlice := ia.X.Type().Underlying().(*types.Slice); !isSlice {
+					return
+				}
+				orig := map[string]bool{}
+				sliceOrigins(c, pa, ia.X, false, map[ssa.Value]bool{}, orig)
+				n++
+				perFn++
+				var bad []string
+				for o := range orig {
+					if strings.HasPrefix(o, "field:Info.") || strings.HasPrefix(o, "field:Overridables.") || strings.HasPrefix(o, "field:Config.") {
+						bad = append(bad, o)
+					}
+				}
+				sort.Strings(bad)
+				construct := fmt.Sprintf("element store#%d in %s", perFn, c.funcKey(fn))
+				r.Check(len(bad) == 0, "W3-shared-slice", construct, c.instrPos(x),
+					fmt.Sprintf("the slice written may be %v: Config.Get copies slice headers only, so this rewrites the parsed configuration's own list (origins: %s)", bad, joinSorted(orig)))
+			case *ssa.Call:
+				b, ok := x.Call.Value.(*ssa.Builtin)
+				if !ok || b.Name() != "append" {
+					return
+				}
+				orig := map[string]bool{}
+				sliceOrigins(c, pa, x.Call.Args[0], false, map[ssa.Value]bool{}, orig)
+				var bad, direct []string
+				for o := range orig {
+					if strings.HasPrefix(o, "field:Info.") || strings.HasPrefix(o, "field:Overridables.") || strings.HasPrefix(o, "field:Config.") {
+						if strings.HasSuffix(o, " resliced") {
+							bad = append(bad, o)
+						} else {
+							direct = append(direct, o)
+						}
+					}
+				}
+				if len(bad) == 0 && len(direct) == 0 {
+					return
+				}
+				n++
+				perFn++
+				sort.Strings(bad)
+				construct := fmt.Sprintf("append#%d in %s", perFn, c.funcKey(fn))
+				if len(bad) > 0 {
+					r.Fail("W3-shared-slice", construct, c.instrPos(x), fmt.Sprintf("append onto a reslice of a configuration list (%v): the spare capacity is the parsed configuration's own backing array, so the append overwrites its entries", bad))
+				} else {
+					r.Pass("W3-shared-slice", construct, c.instrPos(x), fmt.Sprintf("append onto the full list %v: copies under the recorded assumption that decoded lists have cap == len", direct))
+				}
+			}
+		})
+	}
+	r.Floor("W3-shared-slice", n, 3)
+}
+
+// ---- G4: buffers that back package output are not shared ---------------------
+
+// checkOutputBuffers: every in-memory buffer under an archive/compressor
+// writer of a packager is a fresh local (or is Reset before use), and the
+// bytes of a buffer that is handed back to a pool do not escape.
+func checkOutputBuffers(c *Ctx, r *Report) {
+	sa := newSinkAnalysis(c)
+	var roots []*ssa.Function
+	for _, p := range c.Packagers {
+		roots = append(roots, p.Package)
+	}
+	reach := c.Reach(roots...)
+	n := 0
+	for _, fn := range sortedFuncs(c, reach) {
+		perFn := 0
+		forEachInstr(fn, func(in ssa.Instruction) {
+			call, ok := in.(*ssa.Call)
+			if !ok {
+				return
+			}
+			o := calleeObj(call)
+			if o == nil {
+				return
+			}
+			q := qualifiedName(o)
+			if !wrapperCtors[q] || len(call.Call.Args) == 0 {
+				return
+			}
+			n++
+			perFn++
+			construct := fmt.Sprintf("%s#%d in %s", shortName(q), perFn, c.funcKey(fn))
+			ok2 := true
+			why := ""
+			for _, root := range sa.terminalRoots(call.Call.Args[0]) {
+				fresh, w := freshBufferRoot(root)
+				if !fresh {
+					ok2 = false
+					why = w
+				}
+				if pc, isCall := root.(*ssa.Call); isCall {
+					if esc := pooledBytesEscape(pc); esc != "" {
+						ok2 = false
+						why = esc
+					}
+				}
+			}
+			if ok2 {
+				why = "every buffer under this writer is a fresh local allocation, caller-supplied, or reset before use"
+			}
+			r.Check(ok2, "G4", construct, c.instrPos(call), why)
+		})
+	}
+	r.Floor("G4", n, 12)
+}
+
+// pooledBytesEscape: the object returned by `get` is handed back through a
+// Put call while a slice of its contents (Bytes()) leaves the function.
+func pooledBytesEscape(get *ssa.Call) string {
+	aliases := map[ssa.Value]bool{}
+	var collect func(v ssa.Value, d int)
+	collect = func(v ssa.Value, d int) {
+		if d > 4 || aliases[v] || v.Referrers() == nil {
+			return
+		}
+		aliases[v] = true
+		for _, ref := range *v.Referrers() {
+			switch x := ref.(type) {
+			case *ssa.TypeAssert:
+				collect(x, d+1)
+			case *ssa.Extract:
+				collect(x, d+1)
+			case *ssa.MakeInterface:
+				collect(x, d+1)
+			}
+		}
+	}
+	collect(get, 0)
+	put := false
+	var bytesCalls []*ssa.Call
+	for a := range aliases {
+		for _, ref := range *a.Referrers() {
+			ci, ok := ref.(ssa.CallInstruction)
+			if !ok {
+				continue
+			}
+			o := calleeObj(ci)
+			if o == nil {
+				continue
+			}
+			if o.Name() == "Put" {
+				put = true
+			}
+			if cv, isCall := ci.(*ssa.Call); isCall && (o.Name() == "Bytes" || o.Name() == "String") && callReceiver(ci) == a {
+				bytesCalls = append(bytesCalls, cv)
+			}
+		}
+	}
+	if !put {
+		return ""
+	}
+	for _, bc := range bytesCalls {
+		if o := calleeObj(bc); o != nil && o.Name() == "String" {
+			continue // String copies
+		}
+		for _, ref := range *bc.Referrers() {
+			switch x := ref.(type) {
+			case *ssa.Return:
+				return "the buffer is handed back to its pool while a slice of its bytes is returned: a later packaging reuses and overwrites the memory the caller still reads"
+			case *ssa.Store:
+				return "the buffer is handed back to its pool while a slice of its bytes is stored"
+			case *ssa.Call:
+				if b, ok := x.Call.Value.(*ssa.Builtin); ok && (b.Name() == "append" || b.Name() == "copy" || b.Name() == "len") {
+					continue
+				}
+			}
+		}
+	}
+	return ""
 }
